@@ -1,5 +1,5 @@
 (** * C14 — compilation is a pure, deterministic, thread-safe function (partial). *)
-From PQL Require Import Model.Compile Gen.Shared Proofs.TableFacts.
+From PQL Require Import Model.Compile Gen.Shared Proofs.SharedFacts.
 From Coq Require Import String.
 Local Open Scope list_scope.
 Local Open Scope nat_scope.
